@@ -20,8 +20,11 @@
 (*                  plaintext) are further Connect steps                  *)
 (*   CheckConn      attemptMX: CheckConn of every policy, in order        *)
 (*   NoMX           newConn: no usable MX, class of the last error        *)
-(*   Gate           connectionForDomain: REQUIRETLS level checks, MAIL,   *)
-(*                  RCPT (scripted to succeed)                             *)
+(*   Gate           connectionForDomain: REQUIRETLS level checks, MAIL     *)
+(*                  (refused for a "mailfail" message: connection closed), *)
+(*                  RCPT                                                   *)
+(*   RaiseQuar      the pipeline quarantines the message after RCPT        *)
+(*   BodyRefuse     Body / BodyNonAtomic refuse a quarantined message      *)
 (*   Data, BodyRet  BodyNonAtomic: DATA on the connection                 *)
 (*   Commit         remoteDelivery.Close: return the connection           *)
 (* Observable steps (StartMsg, Lookup, Connect, Ret*, Data, Finish) correspond *)
@@ -73,17 +76,23 @@ AllStlsCert == {SC("offered", "valid"), SC("offered", "selfsigned"), SC("offered
 SmallStlsCert == {SC("offered", "valid"), SC("offered", "selfsigned"), SC("stripped", "valid"), SC("hsfail", "valid")}
 QuickStlsCert == {SC("offered", "valid"), SC("offered", "selfsigned"), SC("stripped", "valid")}
 TwoStlsCert == {SC("offered", "valid"), SC("stripped", "valid")}
-Kinds1 == {[reqtls |-> FALSE, tlsno |-> FALSE, quar |-> FALSE]}
+Kinds1 == {NoMsg}
 QuickTlsa == {"none", "ee_match", "servfail"}
 CnameTlsa == {"insecure", "none", "ee_match", "servfail"}
 AllCn == {"no", "sec", "half", "insec"}
 DaneOnly == {{"dane"}, {"dane", "local"}}
 AllTlsa == {"insecure", "none", "ee_match", "ta_match", "mismatch", "unusable", "servfail"}
 SmallTlsa == {"none", "ee_match", "mismatch", "servfail"}
-MK(r, n, q) == [reqtls |-> r, tlsno |-> n, quar |-> q]
+MK(r, n, q) == [NoMsg EXCEPT !.reqtls = r, !.tlsno = n, !.quar = q]
 Kinds4 == {MK(FALSE, FALSE, FALSE), MK(TRUE, FALSE, FALSE), MK(FALSE, TRUE, FALSE), MK(FALSE, FALSE, TRUE)}
 Kinds5 == Kinds4 \cup {MK(TRUE, TRUE, FALSE)}
 Kinds3 == {MK(FALSE, FALSE, FALSE), MK(TRUE, FALSE, FALSE), MK(FALSE, TRUE, FALSE)}
+\* MAIL refused for an ordinary / a TLS-Required: No message; quarantined after RCPT, either body path
+KindsMail == {[MK(FALSE, n, FALSE) EXCEPT !.mailfail = TRUE] : n \in BOOLEAN}
+KindsLateQ == {[MK(FALSE, n, FALSE) EXCEPT !.qlate = TRUE, !.na = a] : n \in BOOLEAN, a \in BOOLEAN}
+KindsNA == {[MK(FALSE, n, FALSE) EXCEPT !.na = TRUE] : n \in BOOLEAN}
+KindsX == Kinds4 \cup KindsMail \cup KindsLateQ \cup KindsNA
+KindsFocus == Kinds3 \cup KindsMail
 
 VARIABLES cfg, k, cur, pc, mxi, att, lvl, conn, pool, lastErr,
           pend,   \* TLSA outcome of an earlier MX whose lookup is still unanswered ("no" = none)
@@ -277,11 +286,27 @@ Gate(res) ==
   /\ pc = "gate"
   /\ IF cur.reqtls /\ (conn.tll < 2 \/ conn.mxl < 1)
      THEN res = "perm" /\ RetAddRcpt(res) /\ EndMsg
+     ELSE IF cur.mailfail
+     THEN res = "temp" /\ RetAddRcpt(res) /\ EndMsg       \* MAIL refused: the connection is closed
      ELSE /\ res = "ok" /\ RetAddRcpt(res) /\ pc' = "body"
           /\ UNCHANGED <<k, cur, conn, pend, tl>>
 
+(* a body-stage check of the pipeline quarantines the message after RCPT *)
+RaiseQuar ==
+  /\ pc = "body" /\ cur.qlate /\ ~cur.quar
+  /\ cur' = [cur EXCEPT !.quar = TRUE]
+  /\ obs' = ObsQuar(obs)
+  /\ UNCHANGED <<cfg, k, pc, mxi, att, lvl, conn, pool, lastErr, pend, tl, devs, hist>>
+
+(* Body / BodyNonAtomic refuse a quarantined message: nothing is sent *)
+BodyRefuse(res) ==
+  /\ pc = "body" /\ cur.qlate /\ cur.quar /\ res = "perm"
+  /\ obs' = ObsRet(obs, cfg, "body", res)
+  /\ pc' = "commit"                                     \* Abort: same Close as Commit
+  /\ UNCHANGED <<cfg, k, cur, mxi, att, lvl, conn, pool, lastErr, pend, tl, devs, hist>>
+
 Data(i, t) ==
-  /\ pc = "body" /\ i = conn.mx /\ t = conn.tls
+  /\ pc = "body" /\ ~cur.qlate /\ i = conn.mx /\ t = conn.tls
   /\ obs' = ObsData(obs, cfg, [mx |-> i, tls |-> t, cert |-> cfg.mx[i].cert])
   /\ pc' = "bodyret"
   /\ devs' = devs \cup conn.taint
@@ -318,6 +343,8 @@ Next ==
   \/ \E m \in MsgKinds : StartMsg(m)
   \/ Silent
   \/ \E res \in Classes : RetQuarantine(res) \/ LookupFail(res) \/ NoMX(res) \/ Gate(res) \/ BodyRet(res)
+                           \/ BodyRefuse(res)
+  \/ RaiseQuar
   \/ \E i \in 1..NMX, t \in TLSStates : Connect(i, t) \/ Data(i, t)
   \/ \E i \in 1..NMX, cross \in BOOLEAN : Lookup(i, cross)
   \/ Finish
